@@ -42,3 +42,9 @@ elif not ok:
     print(f"[{sid}] INVALID SEED (demo/build) — look manually")
 else:
     print(f"[{sid}] NOT DETECTED by {prop} — strengthen")
+# the scratch build of this worktree is not needed any more (20 MB each)
+import hashlib, shutil, glob as _glob
+tag = hashlib.sha1(wt.encode()).hexdigest()[:8]
+shutil.rmtree(f"/verif/harness/bin/{tag}", ignore_errors=True)
+for f in _glob.glob(f"/verif/harness/.alt-{tag}.*"):
+    os.remove(f)
